@@ -86,3 +86,12 @@ Definition site_eqb (a b : site) : bool :=
   String.eqb (s_func a) (s_func b) && String.eqb (s_expr a) (s_expr b) && Nat.eqb (s_ord a) (s_ord b).
 Definition sites_classified (sites justified : list site) : bool :=
   forallb (fun s => negb (s_choice s) || existsb (site_eqb s) justified) sites.
+
+(* ---- accesses of the apply path to the declared-transient fields: (field, function, read|write) ---- *)
+Definition access := (string * string * string)%type.
+Definition access_eqb (a b : access) : bool :=
+  String.eqb (fst (fst a)) (fst (fst b)) && String.eqb (snd (fst a)) (snd (fst b)) && String.eqb (snd a) (snd b).
+(* the generated accesses are exactly the reviewed ones: nothing new reads a transient field, and no reviewed
+   (re-)establishing write has gone away *)
+Definition access_reviewed (generated reviewed : list access) : bool :=
+  forallb (fun a => existsb (access_eqb a) reviewed) generated && forallb (fun a => existsb (access_eqb a) generated) reviewed.
